@@ -21,6 +21,11 @@ dst = f"/verif/seeded/{ID}-{DEST}"
 os.makedirs(dst, exist_ok=True)
 shutil.copy(os.path.join(src, f"patch_{K}.diff"), os.path.join(dst, "patch.diff"))
 shutil.copy(os.path.join(src, f"demo_{K}.py"), os.path.join(dst, "demo.py"))
+import glob
+for h in glob.glob(os.path.join(src, "*.py")):
+    b = os.path.basename(h)
+    if not b.startswith("demo_") and b not in ("fuzz.py",):
+        shutil.copy(h, os.path.join(dst, b))   # helper modules the demonstration imports
 fired = sorted(p for p, r in res["results"].items() if r["exit"] == 1)
 errs = sorted(p for p, r in res["results"].items() if r["exit"] == 2)
 meta = {
